@@ -223,23 +223,24 @@ func diffLayout(a, b layout) string {
 // ---------- datatype facts ----------
 
 type typeFacts struct {
-	K          string // TypeID constant value
-	Name       string // TypeID constant name
-	T          types.Type
-	Decoder    *ssa.Function
-	LenConst   int64 // -1 = dynamic
-	LenDyn     string
-	PadConst   int64 // -1 = dynamic
-	PadIsRound bool  // Padding = roundup4(x) − x with x the Len() expression
-	PadWhy     string
-	SerSize    int64  // make size in Serialize, -1 = dynamic / conversion
-	SerEndian  string // big | little | conv | delegate | other
-	SerAdd     int64  // constant added before writing (Time)
-	DecLen     int64  // payload length the decoder really decodes (guard), -1 = any
-	DecEndian  string
-	DecAdds    []int64 // constants added/subtracted after reading (Time)
-	StringKind bool
-	Problems   []string
+	K            string // TypeID constant value
+	Name         string // TypeID constant name
+	T            types.Type
+	Decoder      *ssa.Function
+	LenConst     int64 // -1 = dynamic
+	LenDyn       string
+	PadConst     int64 // -1 = dynamic
+	PadIsRound   bool  // Padding = roundup4(x) − x with x the Len() expression
+	PadWhy       string
+	SerSize      int64  // make size in Serialize, -1 = dynamic / conversion
+	SerEndian    string // big | little | conv | delegate | other
+	SerAdd       int64  // constant added before writing (Time)
+	DecLen       int64  // payload length the decoder really decodes (guard), -1 = any
+	DecEndian    string
+	DecAdds      []int64 // constants added/subtracted after reading (Time)
+	DecAddNarrow bool    // some of that arithmetic happens in a type narrower than int64 or unsigned
+	StringKind   bool
+	Problems     []string
 }
 
 func (c *Ctx) methodOf(T types.Type, name string) *ssa.Function {
@@ -533,6 +534,9 @@ func (c *Ctx) decoderFacts(tf *typeFacts) {
 							k = -k
 						}
 						tf.DecAdds = append(tf.DecAdds, k)
+						if b, ok := y.Type().Underlying().(*types.Basic); !ok || b.Kind() != types.Int64 {
+							tf.DecAddNarrow = true
+						}
 						v = y.X
 						continue
 					}
@@ -544,7 +548,7 @@ func (c *Ctx) decoderFacts(tf *typeFacts) {
 			if g := c.P.Func("diam/datatype", strings.TrimPrefix(tf.DecEndian, "delegate:")); g != nil && g != d {
 				sub := &typeFacts{Decoder: g, DecLen: -1}
 				c.decoderFacts(sub)
-				tf.DecLen, tf.DecEndian, tf.DecAdds = sub.DecLen, sub.DecEndian, sub.DecAdds
+				tf.DecLen, tf.DecEndian, tf.DecAdds, tf.DecAddNarrow = sub.DecLen, sub.DecEndian, sub.DecAdds, sub.DecAddNarrow
 			}
 			continue
 		}
